@@ -5,6 +5,7 @@
   interleaving" is "for every list of enabled actions" (`run`).  Helper lemmas: IcingaProofs/C04/Lemmas.lean.
 -/
 import IcingaProofs.C04.Lemmas
+import IcingaProofs.C04.TraceLemmas
 import IcingaModel.C04.Spec
 
 namespace Icinga.C04
@@ -141,6 +142,38 @@ theorem sched_keeps_scheduled (s s' : St) (c : Nat) (now : Int) (r e p : Bool)
     · left; simp [St.upd, Chk.skip]
     · right; simp [St.upd, Chk.pick]
   · simp at hs
+
+/-- **model_trace_meets_spec** (the safety part of the property as one statement).  For every number of checkables,
+    every `max_concurrent_checks ≥ 0` and every interleaving of enabled actions inside the property's event alphabet —
+    scheduler sections with arbitrary clocks and oracle inputs, helper sections, check completions, pause / resume /
+    activation / deactivation (attribute writes and handler calls at any distance from each other), next-check
+    changes, forced checks — the trace an observer takes from the model (membership at every lock release, the
+    scheduler's slot and skip decisions, start and end of every command execution, the quiescent snapshot at the end;
+    IcingaModel/C04/Trace.lean) satisfies the executable specification `specTrace` that the check also evaluates on the
+    real scheduler's observations: never in both sets, no dispatch without a free slot, no forced check skipped, never
+    two executions of one checkable at once, never more than `max_concurrent_checks` executions, and at quiescence
+    schedulable ⇔ in exactly one set, under its `next_check`.  (`window` observations are covered by
+    `next_check_window`; real-time liveness is measured, not proved.) -/
+theorem model_trace_meets_spec (n : Nat) (max : Int) (hm : 0 ≤ max) (acts : List Act) (tr : List Ev)
+    (hp : ∀ a ∈ acts, a.isPassive = false) (ht : traceOf (init n max) acts = some tr) :
+    specTrace { max := max } tr = none :=
+  rel_run acts _ _ tr (rel_init n max hm) hp ht
+
+/-- the hypotheses are met by a non-trivial run (dispatch, execution, pause while pending, result, finish) and the trace
+    it produces is not empty -/
+example : (traceOf (init 2 1) [.setActive 1 true, .setPaused 1 false, .objectHandler 1, .force 1,
+    .sched 1 5 true false true, .helperGuard 1, .setPaused 1 true, .objectHandler 1, .result 1, .helperDec 1,
+    .helperFinish 1]) = some [.loc 1 true false, .slot 0 1, .decision 1 true false, .loc 1 false true, .execStart 1,
+      .loc 1 false false, .execEnd 1, .loc 1 false false, .quiescent 0 false false false 0 0,
+      .quiescent 1 false false false 0 0] := by decide
+
+/-- without the alphabet hypothesis the statement is false: the Q-C04 run produces a trace the specification rejects -/
+theorem model_trace_counterexample_with_passive_result :
+    (traceOf (init 1 4) [.setActive 0 true, .setPaused 0 false, .objectHandler 0, .sched 0 0 true true true,
+        .helperGuard 0, .passiveResult 0, .setPaused 0 true, .objectHandler 0, .setPaused 0 false,
+        .objectHandler 0, .sched 0 0 true true true, .helperGuard 0]).bind (fun tr => specTrace { max := 4 } tr)
+      = some .single_flight := by
+  decide
 
 /-! ### the specification predicate is not vacuous -/
 
